@@ -512,7 +512,10 @@ def mpc_cos_pi(z, prec, rnd=round_fast):
     a, b = z
     if b == fzero:
         return mpf_cos_pi(a, prec, rnd), fzero
-    b = mpf_mul(b, mpf_pi(prec+5), prec+5)
+    # pi*b must be accurate to prec+5 bits in the absolute sense:
+    # cosh and sinh amplify a relative error of their argument by |pi*b|
+    wpb = prec + 7 + max(0, b[2]+b[3])
+    b = mpf_mul(b, mpf_pi(wpb), wpb)
     if a == fzero:
         return mpf_cosh(b, prec, rnd), fzero
     wp = prec + 6
@@ -526,7 +529,10 @@ def mpc_sin_pi(z, prec, rnd=round_fast):
     a, b = z
     if b == fzero:
         return mpf_sin_pi(a, prec, rnd), fzero
-    b = mpf_mul(b, mpf_pi(prec+5), prec+5)
+    # pi*b must be accurate to prec+5 bits in the absolute sense:
+    # cosh and sinh amplify a relative error of their argument by |pi*b|
+    wpb = prec + 7 + max(0, b[2]+b[3])
+    b = mpf_mul(b, mpf_pi(wpb), wpb)
     if a == fzero:
         return fzero, mpf_sinh(b, prec, rnd)
     wp = prec + 6
@@ -558,7 +564,10 @@ def mpc_cos_sin_pi(z, prec, rnd=round_fast):
     if b == fzero:
         c, s = mpf_cos_sin_pi(a, prec, rnd)
         return (c, fzero), (s, fzero)
-    b = mpf_mul(b, mpf_pi(prec+5), prec+5)
+    # pi*b must be accurate to prec+5 bits in the absolute sense:
+    # cosh and sinh amplify a relative error of their argument by |pi*b|
+    wpb = prec + 7 + max(0, b[2]+b[3])
+    b = mpf_mul(b, mpf_pi(wpb), wpb)
     if a == fzero:
         ch, sh = mpf_cosh_sinh(b, prec, rnd)
         return (ch, fzero), (fzero, sh)
